@@ -297,6 +297,15 @@ def corner_modules():
                 [('T0', {'m1': True, 'm2': None}), ('T0', {'m1': False, 'm2': None, 'a3': [300, -1, 5, 0]}),
                  ('T0', {'m1': True, 'm2': None, 'a3': [], 'a4': 'ab', 'a5': 7}),
                  ('T0', {'m1': True, 'm2': None, 'a3': [2 ** 64], 'a4': '', 'a5': -7})]))
+    # SET components whose high tag numbers need different numbers of identifier octets (ordering must be by
+    # the tag NUMBER, not by the octets: [300] < [16384], [16383] < [2097152], [127] < [128]), in both
+    # declaration orders and for every class
+    for cls in ('', 'APPLICATION', 'PRIVATE'):
+        for lo, hi in ((300, 16384), (16383, 2097152), (127, 128), (30, 31), (128, 2097151)):
+            s1 = {'k': 'SET', 'root': [_m('a', INT, None, (cls, lo, '')), _m('b', BOOL, None, (cls, hi, ''))], 'ext': None}
+            s2 = {'k': 'SET', 'root': [_m('b', BOOL, None, (cls, hi, '')), _m('a', INT, None, (cls, lo, ''))], 'ext': None}
+            out.append((_mod('IMPLICIT', [('T0', s1), ('T1', s2)]),
+                        [('T0', {'a': 2, 'b': True}), ('T1', {'a': -2, 'b': False})]))
     # named bits with trailing zeros, unused bits, empty strings, long lengths, universal-class tags
     misc = {'k': 'SEQUENCE', 'root': [_m('nb', NBITS), _m('b', BITS, None, ('UNIVERSAL', 41, '')),
                                       _m('o', OCT, None, ('UNIVERSAL', 100, 'EXPLICIT')), _m('u', UTF8),
